@@ -608,10 +608,20 @@ func (g *G) elemPool(t *ty.Ty) []*ty.Val {
 	return pool
 }
 
+// pre is the prefix of the type name that the ops on lists of t carry.
+func (g *G) pre(t *ty.Ty) string {
+	if g.tnPre == "L" && !g.env.CanEqual(t) && !gen.MethodsAgree(g.env, t, "E", "H") {
+		// not ==-comparable and holding an own Equal without an own Hash: Unique buckets by the structural hash
+		// (known finding F115); the check maps kept-Equal answers of unique / uniqueeq on these types to that class
+		return "LNC"
+	}
+	return g.tnPre
+}
+
 // elemOps emits wrappers, registrations and ops of the per-element-type helpers.
 func (g *G) elemOps(i int, t *ty.Ty) {
 	env := g.env
-	tn := fmt.Sprintf("%s%d", g.tnPre, i)
+	tn := fmt.Sprintf("%s%d", g.pre(t), i)
 	fmt.Fprintf(g.prelude, "ty %s %s\n", tn, t.Wire())
 	gt := t.Go(env, "main")
 	qi := g.pkgOf(t)
@@ -917,7 +927,7 @@ func (g *G) cmpOps(i int, t *ty.Ty, own bool) {
 	if isBasicUnder(env, t) || !(g.want["sort"] || g.want["min"] || g.want["max"]) {
 		return
 	}
-	tn := fmt.Sprintf("%s%d", g.tnPre, i)
+	tn := fmt.Sprintf("%s%d", g.pre(t), i)
 	gt := t.Go(env, "main")
 	var qi int
 	if own {
